@@ -150,6 +150,33 @@ theorem prepeptide_rebuild_unrepaired_partial (l : Loc) (hwf : geneWF l = true) 
       simpa [rebuildLocation] using rebuildUnrepaired_ok l.strand secs hne hok (hsnd rfl))
     (fun _ x hx => by simpa [rebuildSound, hx] using hs)
 
+/-- partial genes (NCBI `<`/`>` positions): when the gene's 3' end is ambiguous (`amb`), a protein end beyond the
+    product is truncated to the product — the annotation then covers exactly `bases[3s : 3⌊len/3⌋]`; in every other
+    situation (exact end, or an end inside the product) the call is the ordinary one, so `sub_is_slice`,
+    `sub_extract_translate` and `sub_refused` apply verbatim -/
+theorem sub_partial_gene (l : Loc) (hwf : geneWF l = true) (s : Nat) (e : Int) :
+    (∀ amb, (e ≤ l.len / 3 ∨ amb = false) → subLocationFuzzy amb l s e = subLocation l s e) ∧
+    ((s : Int) < l.len / 3 → l.len / 3 < e →
+      ∃ r, subLocationFuzzy true l s e = .ok r ∧
+        bases r = sliceL (bases l) (3 * s) (3 * (l.len / 3).toNat) ∧
+        coversSlice l r (3 * s) (3 * (l.len / 3).toNat) = true) := by
+  refine ⟨fun amb h => subLocationFuzzy_eq amb l s e h, fun hs he => ?_⟩
+  have hpos := len_nonneg l hwf
+  obtain ⟨r, hr, hb, _, _, hc⟩ := sub_is_slice l hwf s (l.len / 3).toNat (by omega) (by omega)
+  refine ⟨r, ?_, hb, hc⟩
+  rw [subLocationFuzzy_truncates l s e (by omega) hs he]
+  have : ((l.len / 3).toNat : Int) = l.len / 3 := by omega
+  rw [← this]; exact hr
+
+/-- the `codon_start` qualifier as GenBank text: only its first character counts; a digit behaves as that
+    number (so `frameshift_drops_offset` / `frameshift_refused` apply), anything else is refused -/
+theorem frameshift_text (l : Loc) (raw : String) (undo : Bool) :
+    (∀ c, codonStartOfText raw = some c → frameshiftText l raw undo = frameshift l c undo) ∧
+    (codonStartOfText raw = none → frameshiftText l raw undo = .valueError) := by
+  constructor
+  · intro c hc; simp [frameshiftText, hc]
+  · intro hc; simp [frameshiftText, hc]
+
 /-! ### non-vacuity and witnesses (all decided by the kernel on the model) -/
 
 /-- D8 witnesses, now repaired: the origin-spanning forward gene join{[90:102),[0:21)} and its reverse twin -/
@@ -205,5 +232,16 @@ example : geneWF kfShuffled = true ∧ rebuildSound kfShuffled 1 1 = false := by
 example : prepeptideRebuild false kfShuffled 1 1
     = .ok (.compound [⟨19, 22, .rev⟩, ⟨16, 19, .rev⟩, ⟨0, 25, .rev⟩]) := by decide
 example : prepeptideRebuild true kfShuffled 1 1 = .ok kfShuffled := by decide
+
+/-- partial gene `[10:>40)`: residues [8, 12) are cut back to [8, 10); with an exact end they are refused -/
+example : subLocationFuzzy (ambiguousEnd (.simple ⟨10, 40, .fwd⟩) [(false, true)]) (.simple ⟨10, 40, .fwd⟩) 8 12
+    = .ok (.simple ⟨34, 40, .fwd⟩) := by decide
+example : subLocationFuzzy (ambiguousEnd (.simple ⟨10, 40, .fwd⟩) [(false, false)]) (.simple ⟨10, 40, .fwd⟩) 8 12
+    = .valueError := by decide
+/-- reverse partial gene `[<3:27)` in two exons: the open end is the START of the lowest exon -/
+example : ambiguousEnd (.compound [⟨21, 27, .rev⟩, ⟨3, 15, .rev⟩]) [(false, false), (true, false)] = true
+    ∧ ambiguousEnd (.compound [⟨21, 27, .rev⟩, ⟨3, 15, .rev⟩]) [(false, true), (false, false)] = false := by decide
+example : codonStartOfText "2" = some 2 ∧ codonStartOfText "3x" = some 3 ∧ codonStartOfText "2.0" = some 2
+    ∧ codonStartOfText " 2" = none ∧ codonStartOfText "-1" = none := by decide
 
 end ASV.C09
